@@ -61,7 +61,9 @@ def run(ctx):
     bm, bvals = genmod.boundary_module(ctx.rng, ctx.quick)
     xm, xvals = genmod.ext64_module(ctx.rng)       # extension indexes / bitmap lengths from 64 on (F29 / F64 repaired)
     fixedvals = {id(bm): bvals, id(xm): xvals}
-    for m in [bm, xm] + mods:
+    tg = genmod.tagged_member_modules(big=False)            # tagged SEQUENCE OF / SET OF elements, EXPLICIT tags on own-descriptor members (F122 / F49 repaired)
+    fixedvals.update({id(m): v for m, v in tg})
+    for m in [bm, xm] + [m for m, _ in tg] + mods:
         txt = genmod.module_text(m)
         env = dict(m["types"])
         b = bundle.Bundle(m["name"], txt, [n for n, _ in m["types"]])
